@@ -19,10 +19,11 @@ type TypeMap struct {
 	heapPkg     map[string]*types.Package // "H.<struct>." prefix -> defining package
 	immutableFields map[string]bool
 	immutableHeaps  map[string]bool
+	valueImmut      map[string][]immutAcc // heap of struct values -> immutable sub-field accessors
 }
 
 func NewTypeMap(d *Decls) *TypeMap {
-	return &TypeMap{d: d, cache: map[string]string{}, busy: map[string]bool{}, structNames: map[*types.Struct]string{}, heapPkg: map[string]*types.Package{}, immutableHeaps: map[string]bool{}}
+	return &TypeMap{d: d, cache: map[string]string{}, busy: map[string]bool{}, structNames: map[*types.Struct]string{}, heapPkg: map[string]*types.Package{}, immutableHeaps: map[string]bool{}, valueImmut: map[string][]immutAcc{}}
 }
 
 func qual(p *types.Package) string {
@@ -307,6 +308,8 @@ func (tm *TypeMap) canonStruct(n *types.Named, st *types.Struct) string {
 	return name
 }
 
+type immutAcc struct{ acc, sort, structSort string }
+
 // HeapName is the field heap for field f of pointer-accessed struct type t.
 func (tm *TypeMap) HeapName(t types.Type, field string) string {
 	t = unalias(t)
@@ -320,7 +323,29 @@ func (tm *TypeMap) HeapName(t types.Type, field string) string {
 				tm.heapPkg["H."+cn+"."] = n.Obj().Pkg()
 				tm.heapPkg["HG."+shortTypeName(n)+"."] = n.Obj().Pkg()
 			}
-			return "H." + cn + "." + field
+			// a field holding a struct BY VALUE (e.g. an embedded struct) whose
+			// type declares immutable fields: those sub-fields survive every
+			// havoc of this heap (see Unit.heapSet)
+			hn := "H." + cn + "." + field
+			if _, done := tm.valueImmut[hn]; !done && tm.immutableFields != nil {
+				tm.valueImmut[hn] = nil
+				for i := 0; i < st.NumFields(); i++ {
+					if st.Field(i).Name() != field {
+						continue
+					}
+					fn2, fst := structOf(st.Field(i).Type())
+					if fn2 == nil || fst == nil || fn2.Obj() == nil || fn2.Obj().Pkg() == nil || !structIsTransparent(fn2, fst) {
+						break
+					}
+					vs := tm.SortOf(st.Field(i).Type())
+					for j := 0; j < fst.NumFields(); j++ {
+						if tm.immutableFields[fn2.Obj().Pkg().Path()+"."+fn2.Obj().Name()+"."+fst.Field(j).Name()] {
+							tm.valueImmut[hn] = append(tm.valueImmut[hn], immutAcc{tm.fieldAccessor(vs, fst.Field(j).Name(), j), tm.SortOf(fst.Field(j).Type()), vs})
+						}
+					}
+				}
+			}
+			return hn
 		}
 	}
 	return "H." + shortTypeName(t) + "." + field
